@@ -169,6 +169,12 @@ pub fn dispatch(f: &[&str]) -> Option<String> {
         },
         "vfs_config_dir_m" | "vfs_config_dir_s" => {
             let vfs = if f[0] == "vfs_config_dir_m" { Vfs::memfs() } else { Vfs::stdfs() };
+            if f.len() > 4 {
+                // sandbox root of this configuration: start from nothing
+                let root = a(4);
+                assert!(root.contains("/_build/sb/"));
+                let _ = std::fs::remove_dir_all(&root);
+            }
             for h in f.get(3).copied().unwrap_or("").split(',').filter(|x| !x.is_empty()) {
                 let p = PathBuf::from(unhex_s(h));
                 vfs.mkdir_p(p.parent().unwrap()).unwrap();
